@@ -58,6 +58,7 @@ def from_all_sources(data_text, data_bytes=None):
     from mosromgr.mostypes import MosFile
     raw = data_bytes if data_bytes is not None else data_text.encode('utf-8')
     res = {}
+    impl.apply_cfg(impl.cfg_for(raw[:200].hex()))
     tmp = tempfile.mkdtemp(prefix='mrm-src-')
     try:
         path = os.path.join(tmp, 'doc.mos.xml')
@@ -289,6 +290,8 @@ def replay_c18(pid, fl):
 def run_cli(argv):
     """mosromgr.cli.main(argv) in-process -> (stdout, stderr, return value | 'SystemExit:n')"""
     from mosromgr import cli
+    from . import impl
+    impl.apply_cfg(impl.cfg_for(' '.join(os.path.basename(a) for a in argv)))
     out, err = io.StringIO(), io.StringIO()
     with contextlib.redirect_stdout(out), contextlib.redirect_stderr(err):
         try:
